@@ -178,4 +178,50 @@ let run_case (line : string) : string =
       Buffer.contents b
   | _ -> "BADCASE"
 
-let () = each_line run_case
+(* dht::DhtSearch unit: "S <target> <op>*" *)
+let sstat c = match c.c_st with CNew -> "N" | CActive -> "A" | CGood -> "G" | CBad -> "B"
+let sdump (s : search) : string =
+  Printf.sprintf "n=%d p=%s c=%s r=%s k=%s rs=%d st=%d nx=%s [%s]" (List.length s.s_cs) (sn s.s_pending) (sn s.s_contacted)
+    (sn s.s_replied) (sn s.s_conc) (if s.s_restart then 1 else 0) (if s.s_started then 1 else 0)
+    (match s.s_next with None -> "-" | Some i -> hex_of_id i)
+    (String.concat "," (List.map (fun c -> hex_of_id c.c_id ^ "/" ^ sstat c) s.s_cs))
+
+let run_search_case (toks : string list) : string =
+  match toks with
+  | target :: ops ->
+      let s = ref (search_init (id_of_hex target)) in
+      let b = Buffer.create 1024 in
+      (try
+        List.iter (fun tok ->
+          let f = Array.of_list (split_on ',' tok) in
+          let actives = List.filter (fun c -> c.c_st = CActive) !s.s_cs in
+          let (o, pre) = match f.(0) with
+            | "a" -> (Some (SAdd (id_of_hex f.(1), n_of_string f.(2), n_of_string f.(3))), "")
+            | "g" -> (Some SGet, "")
+            | "s" ->
+                if f.(1) = "first" || f.(1) = "last" then
+                  (match actives with
+                   | [] -> (None, "noactive")
+                   | l -> let c = if f.(1) = "first" then List.hd l else List.nth l (List.length l - 1) in
+                          (Some (SStatus (c.c_id, f.(2) = "1")), ""))
+                else (Some (SStatus (id_of_hex f.(1), f.(2) = "1")), "")
+            | "t" -> (Some STrimFinal, "")
+            | "b" -> (Some SStart, "")
+            | _ -> failwith "op" in
+          let shown = match o with
+            | None -> pre
+            | Some op ->
+                let (s', r) = search_step !s op in
+                if s'.s_err then raise Exit;
+                s := s';
+                (match r with SRnone -> "-" | SRbool x -> if x then "1" else "0" | SRid None -> "none" | SRid (Some i) -> hex_of_id i) in
+          Buffer.add_string b (Printf.sprintf "%s:%s#%08x | " f.(0) shown (fnv32 (sdump !s)))) ops;
+        Buffer.add_string b ("END " ^ sdump !s ^ (if search_complete !s then " complete" else ""))
+      with Exit -> Buffer.add_string b "ERR:internal");
+      Buffer.contents b
+  | _ -> "BADCASE"
+
+let () = each_line (fun line ->
+  match split_ws line with
+  | "S" :: rest -> run_search_case rest
+  | _ -> run_case line)
